@@ -73,6 +73,9 @@ Inductive case :=
 | CProofServe (soa_exp : Z) (pieces : list Z) (now ttl : Z) (exp_obs : option Z)
 (* several admissions into one zone's proof index across clock steps, and lookups *)
 | CProofHist (max_ttl : Z) (steps : list pstep)
+(* DNS64 above the cache: AAAA NODATA piece (with SOA MINIMUM) or none, the A
+   pieces (one per address record), bracket, TTLs of the synthesised AAAAs *)
+| CDns64 (has_soa : bool) (neg : piece) (minimum : Z) (addrs : list piece) (t0 t1 : Z) (obs : list Z)
 (* ReplaceIfCurrent racing SetFromResponse*/Purge on one store, any order *)
 | CCas (ops : list cop)
 (* prefetch through the real queue: claimed entry, refresh inputs, what the
@@ -489,6 +492,10 @@ Definition check_case (c : case) : bool :=
       | None => (ttl <? 0) && oz_eqb eo None
       end
   | CProofHist mx steps => phist_check mx (mk_pindex None []) steps
+  | CDns64 hs neg mn addrs t0 t1 obs =>
+      let n := if hs then Some (neg, mn) else None in
+      negb (match obs with [] => true | _ => false end)
+      && forallb (fun x => x =? dns64_ttl n addrs t1) obs
   | CCas ops => cas_replay [] 1%N ops
   | CPrefetch claimed current cls rrs cut w0 w1 t0 t1 replaced after_id after =>
       let ok := (negb (current =? 0)%N) && (current =? claimed)%N && admitted_class cls in
@@ -571,6 +578,14 @@ Definition spec_case (c : case) : bool :=
       else forallb (fun x => (now <? x) && (ttl * second <=? x - now)) (se :: pcs)
            && match eo with Some e => forallb (fun x => e <=? x) (se :: pcs) | None => false end
   | CProofHist mx steps => phist_spec mx [] steps
+  | CDns64 hs neg mn addrs t0 t1 obs =>
+      (* the synthesised records are inside the lifetime of every cached piece they were composed from *)
+      forallb (fun x =>
+                 forallb (fun p => match p with
+                                   | PHit e => (t0 <? entry_end e) && (x * second <=? entry_end e - t0)
+                                   | PFresh t => x <=? t
+                                   end) ((if hs then [neg] else []) ++ addrs)
+                 && (if hs then x <=? mn else x <=? 600)) obs
   | CCas ops => cas_spec [] ops
   | CPrefetch claimed current cls rrs cut w0 w1 t0 t1 replaced after_id after =>
       (* a refresh that lost the race leaves the newer entry in place; one that
